@@ -25,6 +25,7 @@ typedef struct {
 extern hb_blob_t *hb_face_reference_table(const hb_face_t *face, hb_tag_t tag);
 extern const char *hb_blob_get_data(hb_blob_t *blob, unsigned int *length);
 extern void hb_blob_destroy(hb_blob_t *blob);
+extern unsigned int hb_blob_get_length(hb_blob_t *blob);
 extern unsigned int hb_ot_var_get_axis_infos(hb_face_t *face, unsigned int start_offset, unsigned int *axes_count, vr_axis_info_t *axes_array);
 
 typedef struct hb_set_t hb_set_t;
@@ -106,4 +107,14 @@ func (f *Face) CollectUnicodes() []rune {
 		}
 	}
 	return out
+}
+
+// TableLen returns the length of a table (0 if absent) without copying it.
+func (f *Face) TableLen(tag uint32) int {
+	blob := C.hb_face_reference_table((*C.hb_face_t)(unsafe.Pointer(f.face)), C.hb_tag_t(tag))
+	if blob == nil {
+		return 0
+	}
+	defer C.hb_blob_destroy(blob)
+	return int(C.hb_blob_get_length(blob))
 }
